@@ -14,9 +14,9 @@ Require Import Model Spec SpecFacts.
 Require Spill.
 
 Theorem C17_wrappers_transparent :
-  forall g ignored t rx ws n E e p v q,
-    dead_ok g ignored t rx ws -> peg g ignored t rx n E e p = Match v q ->
-    peg g ignored t rx (length ws + n) E (wrap_all ws e) p = Match (wrapv_all ws v) q.
+  forall g funs ignored t rx ws n E e p v q,
+    dead_ok g funs ignored t rx ws -> peg g funs ignored t rx n E e p = Match v q ->
+    peg g funs ignored t rx (length ws + n) E (wrap_all ws e) p = Match (wrapv_all ws v) q.
 Proof. exact wrappers_transparent. Qed.
 Print Assumptions C17_wrappers_transparent.
 
@@ -29,7 +29,7 @@ Print Assumptions C17_spill_transparent.
 (* non-vacuity: 40 wrappers of mixed kinds around a literal *)
 Example C17_forty_wrappers :
   let ws := concat (repeat [WSeq; WOpt; WFailOr; WChoiceFail (Str [122; 122] false)] 10) in
-  peg [] None [97] (fun _ _ => None) (length ws + 1) [] (wrap_all ws (Str [97] false)) 0
+  peg [] [] None [97] (fun _ _ => None) (length ws + 1) [] (wrap_all ws (Str [97] false)) 0
   = Match (wrapv_all ws (VStr [97])) 1.
 Proof. vm_compute. reflexivity. Qed.
 
